@@ -91,6 +91,19 @@ def cmd (name : String) : P String := do
   | "cirqindex" => do
       let norb ← nat; let a ← nat; let b ← nat
       return s!"{cirqIndex norb a b} {b2n (cirqSign norb a b)} {b2n (embedSign norb a b)}"
+  -- vector arithmetic on explicit vectors (exact)
+  | "vaxpy" => do
+      let s ← gq; let x ← vec; let y ← vec
+      return showVec (x.fold (fun acc k c => acc.addTo k (s * c)) y)
+  | "vdot" => do
+      let x ← vec; let y ← vec
+      return (x.fold (fun acc k c => match y[k]? with
+        | none => acc
+        | some d => acc + c * d) (0 : GQ)).toStr
+  | "vmaxnormsq" => do
+      let x ← vec
+      let m := x.fold (fun (acc : Rat) _ c => if acc < c.normSq then c.normSq else acc) 0
+      return GQ.ratToString m
   | _ => throw s!"unknown command {name}"
 
 def handle (line : String) : String :=
